@@ -43,6 +43,19 @@ let () = run_protocol [
   (* in-place edit through the array / list returned by the getter (extracted edit_period / edit_mode_no) *)
   "f_edit_period", (function [p] -> state := edit_period !state (gv p); show_state true !state | _ -> failwith "arity");
   "f_edit_mode_no", (function [m] -> state := edit_mode_no !state (gzv m); show_state true !state | _ -> failwith "arity");
+  (* in-place edit of the stored model through the getter (extracted edit_model) *)
+  "f_edit_model", (function [d; tag; par; anis] ->
+      state := edit_model !state { m_dim = gn d; m_tag = gz tag; m_par = gv par; m_anis = gv anis }; show_state true !state
+    | _ -> failwith "arity");
+  (* update called with the stored model object itself (extracted step_gen true) *)
+  "f_update_same_obj", (function [d; tag; par; anis; seed; hp; per; hn; mn] ->
+      let u = { u_model = Some { m_dim = gn d; m_tag = gz tag; m_par = gv par; m_anis = gv anis };
+                u_seed = gb seed;
+                u_period = (if gb hp then Some (gv per) else None);
+                u_mode_no = (if gb hn then Some (gzv mn) else None) } in
+      let (st, out) = step_gen o true !state u in
+      state := st; show_state (out = Ok) st
+    | _ -> failwith "arity");
   "f_update", (function [hm; d; tag; par; anis; seed; hp; per; hn; mn] ->
       let u = { u_model = (if gb hm then Some { m_dim = gn d; m_tag = gz tag; m_par = gv par; m_anis = gv anis } else None);
                 u_seed = gb seed;
